@@ -5,7 +5,7 @@ from .common import Violation
 
 
 def run(ctx, *, go_cmds, lean_targets, prop_file, theorems, trace_targets, corr_runs, search_runs,
-        corr_name, driver_args, assumptions=(), trusted=(), leancheck=True, gates=False, what='real code', spec='proved specification'):
+        corr_name, driver_args, assumptions=(), trusted=(), leancheck=True, gates=False, ok_exit=(0,), what='real code', spec='proved specification'):
     common.go_build(go_cmds)
     common.lake_build(lean_targets + ['driver'])
     common.audit(ctx, prop_file, theorems)
@@ -16,13 +16,13 @@ def run(ctx, *, go_cmds, lean_targets, prop_file, theorems, trace_targets, corr_
     tmism = common.trace_tie(ctx, trace_targets) if trace_targets else []
     found = None
     for go_cmd, args in corr_runs:
-        n, mism, _ = common.corr(ctx, corr_name, go_cmd, args, driver_args)
+        n, mism, _ = common.corr(ctx, corr_name, go_cmd, args, driver_args, ok_exit=ok_exit)
         if mism:
             found = (go_cmd, args, mism)
             break
     if not found and tmism:
         for go_cmd, args in search_runs:
-            n, mism, _ = common.corr(ctx, corr_name + '-search', go_cmd, args, driver_args)
+            n, mism, _ = common.corr(ctx, corr_name + '-search', go_cmd, args, driver_args, ok_exit=ok_exit)
             if mism:
                 found = (go_cmd, args, mism)
                 break
